@@ -17,7 +17,11 @@ Definition pname (s : string) : pv := PStr (nm s).
 (* a JWSRegistry / rfc7797 JWSRegistry / JWERegistry instance: vars(reg).  Only
    [ro_allowed] is read by the gate; the other attributes are carried so that the
    model can say that no call changes them. *)
-Inductive regcls := RcJws | Rc7797 | RcJwe.
+(* the class of the object: the three library classes and (caller-defined) subclasses
+   of each.  jws.* and rfc7797.* entry points accept every JWS-family object
+   (rfc7797 functions are typed `registry: Optional[_JWSRegistry]`, the BASE class);
+   jwt dispatches on isinstance(registry, JWERegistry). *)
+Inductive regcls := RcJws | Rc7797 | RcJwe | RcJwsSub | Rc7797Sub | RcJweSub.
 Record regobj := {
   ro_cls : regcls;
   ro_allowed : pv;                (* reg.allowed *)
@@ -373,7 +377,7 @@ Definition resolve (w : world) (r : regsel) : res (option (regcls * pv)) :=
 Definition to_regarg (ro : option (regcls * pv)) : regarg :=
   match ro with
   | None => RNone
-  | Some (RcJwe, a) => RJwe a
+  | Some (RcJwe, a) | Some (RcJweSub, a) => RJwe a
   | Some (_, a) => RJws a
   end.
 Definition with_reg {A} (w : world) (r : regsel) (f : option (regcls * pv) -> res A) : res A :=
